@@ -399,7 +399,7 @@ def hunt3_rules(chk, repo):
             if not isinstance(par, ast.If) or getattr(par, "parent", None) is not loop or a not in par.body:
                 continue
             try:
-                vals = [Evaluator({tname: v, marg + ".should_close": False}).ev(par.test) for v in (0, 0.0)]
+                vals = [Evaluator({tname: v, "self._keepalive_timeout": v, "keepalive_timeout": v, marg + ".should_close": False}).ev(norm.subst(par.test, par)) for v in (0, 0.0)]
             except AnalysisError:
                 continue
             if all(vals):
